@@ -260,6 +260,7 @@ fn case_strategy() -> impl Strategy<Value = Case> {
         4 => (int_ty_strategy(), keyword()).prop_map(|(ty, word)| Case::Keyword { ty, word }),
         3 => (int_ty_strategy(), wide_literal(), "[A-Za-z][A-Za-z0-9]{0,5}").prop_map(|(ty, lit, suffix)| Case::Suffixed { ty, lit, suffix }),
         3 => (int_ty_strategy(), 0u8..3, "[ -~]{0,8}").prop_map(|(ty, kind, payload)| Case::Other { ty, kind, payload }),
+        1 => (int_ty_strategy(), 0u8..3, prop_oneof![keyword(), "[0-9]{1,3}".prop_map(|s| s)]).prop_map(|(ty, kind, payload)| Case::Other { ty, kind, payload }),
     ]
 }
 
